@@ -18,6 +18,7 @@ import (
 	"seehuhn.de/go/sfnt"
 	"seehuhn.de/go/sfnt/cmap"
 	"seehuhn.de/go/sfnt/glyph"
+	"seehuhn.de/go/sfnt/kern"
 	"seehuhn.de/go/sfnt/opentype/gtab"
 	genfont "verif/harness/gen/font"
 	"verif/harness/gen/lookups"
@@ -380,7 +381,9 @@ func TestC15Layout(t *testing.T) {
 			language.MustParse("und-Latn-x-latn"), language.MustParse("de-Latn-x-latn-deu")}).Draw(t, "lang")
 		gsubF, gposF := genFeatures(t, "gsubF"), genFeatures(t, "gposF")
 		strs := []string{genString(t, runes), genString(t, runes), genString(t, runes)}
-		ctx := func() string { return fmt.Sprintf("lang=%s gsub=%v gpos=%v strings=%q\n%s", lang, gsubF, gposF, strs, c) }
+		ctx := func() string {
+			return fmt.Sprintf("lang=%s gsub=%v gpos=%v strings=%q\n%s", lang, gsubF, gposF, strs, c)
+		}
 
 		var l *sfnt.Layouter
 		var err error
@@ -602,6 +605,19 @@ func TestC15Kern(t *testing.T) {
 				k := [2]uint16{uint16(rapid.IntRange(0, n-1).Draw(t, "kl")), uint16(rapid.IntRange(0, n-1).Draw(t, "kr"))}
 				subs[i].pairs[k] = int16(rapid.OneOf(rapid.IntRange(-300, 300), rapid.SampledFrom([]int{-32768, -1, 1, 32767})).Draw(t, "kv"))
 			}
+		}
+		// tables of real fonts exceed the 16-bit subtable length field (more
+		// than 10920 pairs: Cambria, Calibri); readers take the pair count,
+		// not the wrapped length.  Filler pairs for glyph 0 sort in front of
+		// all pairs of the font's other glyphs.
+		if rapid.IntRange(0, 7).Draw(t, "hugeSubtable") == 0 {
+			nFill := rapid.SampledFrom([]int{10900, 10915, 10918, 10920, 10921, 10923, 12000, 16000}).Draw(t, "nFiller")
+			k := rapid.IntRange(0, ns-1).Draw(t, "hugeWhich")
+			for r := 0; r < nFill; r++ {
+				subs[k].pairs[[2]uint16{0, uint16(r)}] = int16(r%7 - 3)
+			}
+			single = false
+			stats.Label("kern", fmt.Sprintf("subtable-with-%d-filler-pairs", nFill))
 		}
 		tables := rf.Tables()
 		tables["kern"] = buildKern(subs)
@@ -871,4 +887,29 @@ func TestC15Ligatures(t *testing.T) {
 		}
 		stats.CaseIn("ligatures", stats.Hash(buf.Bytes()), applied > 0, func() string { return ctx() }, labels...)
 	})
+}
+
+// TestC15RegressKernWrappedLength: subtables whose pair count makes the
+// 16-bit length field wrap to less than the header size (10921, 10922 pairs)
+// were rejected, and a subtable following a wrapped one was looked for at the
+// wrong offset.
+func TestC15RegressKernWrappedLength(t *testing.T) {
+	for _, n := range []int{10920, 10921, 10922, 10923, 12000} {
+		subs := []kernSub{{flags: 0x01, pairs: map[[2]uint16]int16{}}, {flags: 0x01, pairs: map[[2]uint16]int16{{3, 4}: 25}}}
+		for r := 0; r < n; r++ {
+			subs[0].pairs[[2]uint16{0, uint16(r)}] = 1
+		}
+		subs[0].pairs[[2]uint16{3, 4}] = -100
+		info, err := kern.Read(bytes.NewReader(buildKern(subs)))
+		if err != nil {
+			t.Fatalf("%d pairs: kern.Read: %v", n+1, err)
+		}
+		want, _ := refKern(subs, 3, 4)
+		if got := int(info[glyph.Pair{Left: 3, Right: 4}]); got != want {
+			t.Fatalf("%d pairs in the first of two subtables: pair (3,4) kerned by %d, the table says %d", n+1, got, want)
+		}
+		stats.CaseIn("regress", stats.Hash("kern-wrapped", n), true, func() string {
+			return fmt.Sprintf("kern table: subtable with %d pairs followed by a second subtable", n+1)
+		})
+	}
 }
